@@ -1,13 +1,637 @@
-//! C06 — not yet implemented
-use crate::core::{Ctx, Outcome};
-use serde_json::Value;
+//! C06 — Binance L2 streams never leave a silently wrong local book.
+//!
+//! Engine: E-SEQ. For every configuration (rule set x venue evolution x composition of the evolution
+//! into depth updates x REST snapshot point, for two instruments sharing one connection) EVERY delivery
+//! sequence of length <= L over the set of depth-update messages of both instruments (plus one message of
+//! an un-subscribed market) is fed to the REAL transformer obtained from `ExchangeTransformer::init(map,
+//! snapshots, tx)`; the messages and snapshots are the venue's JSON payloads parsed by the real
+//! deserialisers; every `Ok` event is applied to a real `OrderBook` of the instrument the event names
+//! (the consumer), the connection stops at the first terminal error exactly like
+//! `with_termination_on_error`. "Every sequence over the message set" uniformly contains drop, duplicate,
+//! swap, replay-old-prefix, start-early and start-late. The transformers are not `Clone`, so each step
+//! re-initialises the transformer and re-delivers the history before delivering the next message.
+//!
+//! Simulated venue: instrument script = K atomic level changes with ids base+1..base+K on top of an initial
+//! book (id base); a composition cuts the K changes into consecutive updates [U..u] carrying the absolute
+//! amounts (as of u) of the levels touched (futures: pu = u of the previous update); the REST snapshot is the
+//! venue book at id S in base..=base+K. Both instruments use the SAME id range so that a shared or confused
+//! sequencer is visible. Spot ids are consecutive (the spot rule U = u_prev+1 presupposes it); the futures
+//! venue is run with consecutive ids AND with ids that leave holes (stride 2: U = pu+2), because on that venue
+//! only `pu` links two updates — this separates "pu = previous u" from "U = previous u + 1".
+//!
+//! Oracle = venue-rule monitor written from the statement (per instrument; `pos` = u of the last update the
+//! implementation admitted):
+//!  R-chain   "the updates admitted into the local book form an unbroken chain under the venue's published
+//!            rule": first admitted: spot U <= S+1 <= u, futures U <= S <= u; later: spot U = pos+1, futures pu = pos.
+//!  R-book    "the book ... equals the exchange's book as of the sequence number it reports": after every
+//!            admitted update (while the chain is intact) local book == venue book at `book.sequence`.
+//!  R-break   "any break surfaces as a terminal sequence error": a message beyond the next expected one
+//!            (gap) must yield `Err(e)` with `e.is_terminal()`; neither admitted (R-chain) nor silently dropped.
+//!  R-inorder "a gap-free in-order delivery, preceded by any number of strictly older messages, never errors":
+//!            while the messages delivered for an instrument are (older than the snapshot)* followed by the
+//!            consecutive updates starting with the one that covers the snapshot, no output is an `Err`.
+//!  R-route   "across several instruments on one connection": an event names the instrument of the message's
+//!            market; a message of an un-subscribed market yields no event. Isolation of the per-instrument
+//!            chains follows from running one monitor per instrument.
+//! Freedom left by the statement and accepted: a stale / duplicate message after the chain has started may be
+//! dropped or answered with an error; an error for an unknown market may or may not be terminal.
 
-pub fn run(_ctx: &Ctx) -> Outcome {
-    eprintln!("MACHINERY: C06 not implemented");
-    std::process::exit(2)
+use crate::core::{Ctx, Distinct, Outcome, Samples, hash_of};
+use crate::explore::seq::{self, SeqModel, Viol};
+use barter_data::{
+    books::{Level, OrderBook},
+    error::DataError,
+    event::MarketEvent,
+    exchange::binance::{
+        book::l2::BinanceOrderBookL2Snapshot,
+        futures::l2::{BinanceFuturesOrderBookL2Update, BinanceFuturesUsdOrderBooksL2Transformer},
+        spot::l2::{BinanceSpotOrderBookL2Update, BinanceSpotOrderBooksL2Transformer},
+    },
+    subscription::{Map, book::OrderBookEvent},
+    transformer::ExchangeTransformer,
+};
+use barter_instrument::exchange::ExchangeId;
+use barter_integration::{Transformer, subscription::SubscriptionId};
+use rayon::prelude::*;
+use rust_decimal::Decimal;
+use serde::{Deserialize, Serialize};
+use serde_json::{Value, json};
+use std::{
+    collections::BTreeMap,
+    panic::{AssertUnwindSafe, catch_unwind},
+    sync::atomic::{AtomicU64, Ordering},
+};
+
+type PMap = BTreeMap<Decimal, Decimal>;
+type Key = u32;
+type Out = Vec<Result<MarketEvent<Key, OrderBookEvent>, DataError>>;
+
+// ------------------------------------------------------------------------------------------------
+// Configuration and simulated venue
+// ------------------------------------------------------------------------------------------------
+
+#[derive(Clone, Copy, Debug, PartialEq, Eq, Serialize, Deserialize)]
+pub struct InstCfg {
+    pub script: u8, // which evolution script
+    pub k: u8,      // number of atomic changes used
+    pub cuts: u8,   // bit i set => an update ends after change i+1 (the last change always ends one)
+    pub snap: u8,   // REST snapshot taken after `snap` changes (0..=k)
 }
 
-pub fn replay(_ctx: &Ctx, _case: &Value) {
-    eprintln!("MACHINERY: C06 not implemented");
-    std::process::exit(2)
+#[derive(Clone, Copy, Debug, PartialEq, Eq, Serialize, Deserialize)]
+pub struct Cfg {
+    pub futures: bool,
+    /// distance between the ids of two consecutive book changes: 1 = consecutive ids (what the spot rule
+    /// U = u_prev + 1 presupposes); 2 = ids with holes, as on the futures venue where only pu links two updates
+    pub stride: u8,
+    pub inst: [InstCfg; 2],
+}
+
+const BASE: u64 = 1000;
+const MARKETS: [&str; 2] = ["BTCUSDT", "ETHUSDT"];
+const UNKNOWN_MARKET: &str = "XRPUSDT";
+
+/// (bid?, price, amount) — amount 0 deletes.
+type Change = (bool, &'static str, &'static str);
+
+/// Evolution scripts: (initial bids, initial asks, changes). Every prefix gives a different book and
+/// re-applying an old update after a newer one is visible (levels are set, deleted and re-set).
+fn script(i: u8) -> (Vec<(&'static str, &'static str)>, Vec<(&'static str, &'static str)>, Vec<Change>) {
+    match i {
+        0 => (
+            vec![("100", "1"), ("99", "2")],
+            vec![("101", "1"), ("102", "2")],
+            vec![(true, "100", "3"), (false, "101", "0"), (true, "98", "4"), (false, "101", "5"), (true, "100", "0"), (false, "103", "6")],
+        ),
+        1 => (
+            vec![("50", "1")],
+            vec![("51", "1")],
+            vec![(false, "51", "2"), (true, "50", "0"), (true, "49", "7"), (false, "51", "0")],
+        ),
+        _ => (
+            vec![],
+            vec![("101.5", "9")],
+            vec![(true, "100.5", "1"), (true, "100.5", "2"), (false, "101.5", "0"), (true, "100.5", "0"), (false, "101.5", "3"), (true, "99", "1")],
+        ),
+    }
+}
+
+#[derive(Clone, Copy, Debug)]
+struct Ids {
+    first: u64, // U
+    last: u64,  // u
+    prev: u64,  // pu (futures)
+}
+
+enum Msg {
+    Spot(BinanceSpotOrderBookL2Update),
+    Fut(BinanceFuturesOrderBookL2Update),
+}
+
+enum Tf {
+    Spot(BinanceSpotOrderBooksL2Transformer<Key>),
+    Fut(BinanceFuturesUsdOrderBooksL2Transformer<Key>),
+}
+
+impl Tf {
+    fn transform(&mut self, m: &Msg) -> Out {
+        match (self, m) {
+            (Tf::Spot(t), Msg::Spot(m)) => t.transform(m.clone()),
+            (Tf::Fut(t), Msg::Fut(m)) => t.transform(m.clone()),
+            _ => unreachable!("message of the other rule set"),
+        }
+    }
+}
+
+struct Inst {
+    snap_id: u64,
+    books_at: Vec<(PMap, PMap)>, // venue book after 0..=k changes
+    ids: Vec<Ids>,
+    msgs: Vec<Msg>,
+    sub_id: SubscriptionId,
+    snapshot: MarketEvent<Key, OrderBookEvent>,
+}
+
+pub struct Scn {
+    cfg: Cfg,
+    inst: [Inst; 2],
+    unknown: Msg,
+    counts: [AtomicU64; 32], // class x outcome, see `bump`
+}
+
+fn dec(s: &str) -> Decimal {
+    s.parse().unwrap()
+}
+
+fn levels_json(m: &[(Decimal, Decimal)]) -> Value {
+    Value::Array(m.iter().map(|(p, q)| json!([p.to_string(), q.to_string()])).collect())
+}
+
+fn parse_msg(futures: bool, market: &str, ids: Ids, bids: &[(Decimal, Decimal)], asks: &[(Decimal, Decimal)]) -> Msg {
+    // the venue's payloads (formats quoted in the connectors' doc comments), parsed by the real deserialisers
+    if futures {
+        let v = json!({"e": "depthUpdate", "E": 1671656397761u64, "T": 1671656397760u64, "s": market,
+                       "U": ids.first, "u": ids.last, "pu": ids.prev, "b": levels_json(bids), "a": levels_json(asks)});
+        Msg::Fut(serde_json::from_str(&v.to_string()).expect("futures depth update payload"))
+    } else {
+        let v = json!({"e": "depthUpdate", "E": 1671656397761u64, "s": market,
+                       "U": ids.first, "u": ids.last, "b": levels_json(bids), "a": levels_json(asks)});
+        Msg::Spot(serde_json::from_str(&v.to_string()).expect("spot depth update payload"))
+    }
+}
+
+fn sub_id_of(m: &Msg) -> SubscriptionId {
+    match m {
+        Msg::Spot(m) => m.subscription_id.clone(),
+        Msg::Fut(m) => m.subscription_id.clone(),
+    }
+}
+
+impl Inst {
+    fn build(futures: bool, stride: u64, key: Key, c: InstCfg) -> Inst {
+        let id = |t: usize| BASE + stride * t as u64;
+        let (b0, a0, changes) = script(c.script);
+        let k = c.k as usize;
+        assert!(k >= 1 && k <= changes.len() && (c.snap as usize) <= k);
+        let mut bids: PMap = b0.iter().map(|(p, q)| (dec(p), dec(q))).collect();
+        let mut asks: PMap = a0.iter().map(|(p, q)| (dec(p), dec(q))).collect();
+        let mut books_at = vec![(bids.clone(), asks.clone())];
+        for (is_bid, p, q) in changes.iter().take(k) {
+            let side = if *is_bid { &mut bids } else { &mut asks };
+            if dec(q).is_zero() { side.remove(&dec(p)); } else { side.insert(dec(p), dec(q)); }
+            books_at.push((bids.clone(), asks.clone()));
+        }
+        // composition into updates
+        let market = MARKETS[key as usize];
+        let (mut ids, mut msgs) = (Vec::new(), Vec::new());
+        let (mut start, mut prev) = (1usize, BASE);
+        for end in 1..=k {
+            if end == k || c.cuts & (1 << (end - 1)) != 0 {
+                let id = Ids { first: id(start), last: id(end), prev };
+                // absolute amounts (as of `end`) of the levels touched by changes start..=end
+                let touched = |want_bid: bool| -> Vec<(Decimal, Decimal)> {
+                    let mut v: Vec<(Decimal, Decimal)> = Vec::new();
+                    for (is_bid, p, _) in changes[start - 1..end].iter() {
+                        let p = dec(p);
+                        if *is_bid == want_bid && !v.iter().any(|(x, _)| *x == p) {
+                            let book = if want_bid { &books_at[end].0 } else { &books_at[end].1 };
+                            v.push((p, book.get(&p).copied().unwrap_or(Decimal::ZERO)));
+                        }
+                    }
+                    v
+                };
+                msgs.push(parse_msg(futures, market, id, &touched(true), &touched(false)));
+                ids.push(id);
+                prev = id.last;
+                start = end + 1;
+            }
+        }
+        // REST snapshot payload at `snap`
+        let snap_id = id(c.snap as usize);
+        let (sb, sa) = &books_at[c.snap as usize];
+        let sbv: Vec<(Decimal, Decimal)> = sb.iter().rev().map(|(p, q)| (*p, *q)).collect();
+        let sav: Vec<(Decimal, Decimal)> = sa.iter().map(|(p, q)| (*p, *q)).collect();
+        let mut v = json!({"lastUpdateId": snap_id, "bids": levels_json(&sbv), "asks": levels_json(&sav)});
+        if futures {
+            v["E"] = json!(1589436922972u64);
+            v["T"] = json!(1589436922959u64);
+        }
+        let snap: BinanceOrderBookL2Snapshot = serde_json::from_str(&v.to_string()).expect("snapshot payload");
+        let exchange = if futures { ExchangeId::BinanceFuturesUsd } else { ExchangeId::BinanceSpot };
+        let sub_id = sub_id_of(&parse_msg(futures, market, Ids { first: 0, last: 0, prev: 0 }, &[], &[]));
+        Inst { snap_id, books_at, ids, msgs, sub_id, snapshot: MarketEvent::from((exchange, key, snap)) }
+    }
+}
+
+impl Scn {
+    pub fn new(cfg: Cfg) -> Self {
+        let inst = [Inst::build(cfg.futures, cfg.stride as u64, 0, cfg.inst[0]), Inst::build(cfg.futures, cfg.stride as u64, 1, cfg.inst[1])];
+        let unknown = parse_msg(cfg.futures, UNKNOWN_MARKET, Ids { first: BASE + 1, last: BASE + 1, prev: BASE }, &[(dec("7"), dec("7"))], &[]);
+        Scn { cfg, inst, unknown, counts: std::array::from_fn(|_| AtomicU64::new(0)) }
+    }
+
+    /// The real transformer, initialised as `ExchangeWsStream::init` does: subscription map + REST snapshots.
+    fn init_tf(&self) -> Tf {
+        let map: Map<Key> = [(self.inst[0].sub_id.clone(), 0u32), (self.inst[1].sub_id.clone(), 1u32)].into_iter().collect();
+        let snaps = [self.inst[0].snapshot.clone(), self.inst[1].snapshot.clone()];
+        let (tx, _rx) = tokio::sync::mpsc::unbounded_channel();
+        if self.cfg.futures {
+            Tf::Fut(futures::executor::block_on(BinanceFuturesUsdOrderBooksL2Transformer::<Key>::init(map, &snaps, tx)).expect("transformer init"))
+        } else {
+            Tf::Spot(futures::executor::block_on(BinanceSpotOrderBooksL2Transformer::<Key>::init(map, &snaps, tx)).expect("transformer init"))
+        }
+    }
+
+    fn msg(&self, s: &Sym) -> &Msg {
+        if s.inst >= 2 { &self.unknown } else { &self.inst[s.inst as usize].msgs[s.k as usize] }
+    }
+
+    fn rules(&self) -> &'static str {
+        if self.cfg.futures { "futures" } else { "spot" }
+    }
+
+    fn bump(&self, class: Class, outcome: usize) {
+        self.counts[class as usize * 4 + outcome].fetch_add(1, Ordering::Relaxed);
+    }
+}
+
+// ------------------------------------------------------------------------------------------------
+// Monitor
+// ------------------------------------------------------------------------------------------------
+
+/// One delivered message: index `k` into the composition of instrument `inst` (inst 2 = un-subscribed market).
+#[derive(Clone, Copy, Debug, PartialEq, Eq, Serialize, Deserialize)]
+pub struct Sym {
+    pub inst: u8,
+    pub k: u8,
+}
+
+#[derive(Clone, Copy, Debug, PartialEq, Eq, Hash)]
+enum Clean {
+    Pre,       // only messages older than the snapshot so far
+    Chain(u8), // the covering update and its successors were delivered in order; next expected index
+    Dirty,
+}
+
+#[derive(Clone, Copy, Debug, PartialEq, Eq, Hash)]
+#[repr(usize)]
+enum Class {
+    Older = 0,    // entirely at or before the snapshot / the chain position
+    Duplicate,    // futures: u == pos (the last admitted update again)
+    Covering,     // may start the chain
+    Next,         // continues the chain
+    Gap,          // beyond the next expected update
+    Overlap,      // straddles the chain position (cannot come from one composition; only after a defect)
+    Unknown,      // un-subscribed market
+}
+const CLASS_NAMES: [&str; 7] = ["older", "duplicate-of-last", "covering-snapshot", "next-in-chain", "gap", "overlap", "unknown-market"];
+const OUTCOME_NAMES: [&str; 4] = ["admitted", "dropped", "terminal-error", "non-terminal-error"];
+
+#[derive(Clone, Debug, PartialEq, Eq, Hash)]
+struct Mon {
+    pos: Option<u64>, // u of the last update the implementation admitted
+    clean: Clean,
+    desynced: bool, // R-chain already violated: the book is no longer judged
+}
+
+#[derive(Clone)]
+pub struct St {
+    books: [OrderBook; 2], // the consumer's real local books
+    mon: [Mon; 2],
+    ended: bool, // a terminal error ended the connection
+    unknown_used: bool,
+}
+
+fn classify(futures: bool, snap: u64, pos: Option<u64>, m: Ids) -> Class {
+    match (futures, pos) {
+        (false, None) => if m.last <= snap { Class::Older } else if m.first <= snap + 1 { Class::Covering } else { Class::Gap },
+        (true, None) => if m.last < snap { Class::Older } else if m.first <= snap { Class::Covering } else { Class::Gap },
+        (false, Some(p)) => if m.last <= p { Class::Older } else if m.first == p + 1 { Class::Next } else if m.first > p + 1 { Class::Gap } else { Class::Overlap },
+        (true, Some(p)) => if m.last < p { Class::Older } else if m.last == p { Class::Duplicate } else if m.prev == p { Class::Next } else if m.prev > p { Class::Gap } else { Class::Overlap },
+    }
+}
+
+fn book_matches(book: &OrderBook, venue: &(PMap, PMap)) -> bool {
+    let b: Vec<(Decimal, Decimal)> = book.bids().levels().iter().map(|l| (l.price, l.amount)).collect();
+    let a: Vec<(Decimal, Decimal)> = book.asks().levels().iter().map(|l| (l.price, l.amount)).collect();
+    b == venue.0.iter().rev().map(|(p, q)| (*p, *q)).collect::<Vec<_>>() && a == venue.1.iter().map(|(p, q)| (*p, *q)).collect::<Vec<_>>()
+}
+
+impl Scn {
+    fn judge_book(&self, i: usize, st: &St, when: &str, out: &mut Vec<Viol>) {
+        let inst = &self.inst[i];
+        let book = &st.books[i];
+        let r = self.rules();
+        let off = book.sequence.wrapping_sub(BASE);
+        let idx = (off / self.cfg.stride as u64) as usize;
+        if book.sequence < BASE || off % self.cfg.stride as u64 != 0 || idx >= inst.books_at.len() {
+            out.push((format!("C06/{r}/book/reports-a-sequence-the-venue-never-had"), format!("{when}: instrument {i} local book sequence {}", book.sequence)));
+        } else if !book_matches(book, &inst.books_at[idx]) {
+            out.push((
+                format!("C06/{r}/book/differs-from-venue-book-at-reported-sequence"),
+                format!("{when}: instrument {i} local book (sequence {}) bids={:?} asks={:?}; venue book at {} is bids={:?} asks={:?}",
+                    book.sequence, book.bids().levels(), book.asks().levels(), book.sequence, inst.books_at[idx].0, inst.books_at[idx].1),
+            ));
+        }
+    }
+}
+
+impl SeqModel for Scn {
+    type State = St;
+    type Sym = Sym;
+
+    fn init(&self) -> St {
+        // the consumer receives the REST snapshots first
+        let mut books = [OrderBook::default(), OrderBook::default()];
+        for i in 0..2 {
+            books[i].update(self.inst[i].snapshot.kind.clone());
+        }
+        let mon = Mon { pos: None, clean: Clean::Pre, desynced: false };
+        St { books, mon: [mon.clone(), mon], ended: false, unknown_used: false }
+    }
+
+    fn alphabet(&self, s: &St, _h: &[Sym]) -> Vec<Sym> {
+        if s.ended {
+            return vec![]; // with_termination_on_error: nothing is delivered after a terminal error
+        }
+        let mut v = Vec::new();
+        for inst in 0..2u8 {
+            for k in 0..self.inst[inst as usize].msgs.len() as u8 {
+                v.push(Sym { inst, k });
+            }
+        }
+        if !s.unknown_used {
+            v.push(Sym { inst: 2, k: 0 });
+        }
+        v
+    }
+
+    fn at_end(&self, s: &St, hist: &[Sym], out: &mut Vec<Viol>) {
+        if hist.is_empty() {
+            for i in 0..2 {
+                self.judge_book(i, s, "after the REST snapshot", out);
+            }
+        }
+    }
+
+    fn step(&self, st: &mut St, sym: &Sym, hist: &[Sym], out: &mut Vec<Viol>) {
+        let r = self.rules();
+        // real code: fresh transformer, history re-delivered, then this message
+        let res = catch_unwind(AssertUnwindSafe(|| {
+            let mut tf = self.init_tf();
+            for h in hist {
+                let _ = tf.transform(self.msg(h));
+            }
+            tf.transform(self.msg(sym))
+        }));
+        let outputs: Out = match res {
+            Ok(o) => o,
+            Err(_) => {
+                out.push((format!("C06/{r}/panic"), format!("transform panicked on {sym:?} after {hist:?} ({:?})", self.cfg)));
+                st.ended = true;
+                return;
+            }
+        };
+        let describe = |what: &str| format!("{what}; delivery {hist:?} + {sym:?}; {}", self.explain(sym));
+
+        if sym.inst >= 2 {
+            st.unknown_used = true;
+            for o in &outputs {
+                match o {
+                    Ok(ev) => {
+                        self.bump(Class::Unknown, 0);
+                        out.push((format!("C06/{r}/routing/event-from-unsubscribed-market"), describe(&format!("event for instrument {} emitted", ev.instrument))));
+                        if let Some(b) = st.books.get_mut(ev.instrument as usize) {
+                            b.update(ev.kind.clone());
+                            st.mon[ev.instrument as usize].desynced = true;
+                        }
+                    }
+                    Err(e) => {
+                        self.bump(Class::Unknown, if e.is_terminal() { 2 } else { 3 });
+                        st.ended |= e.is_terminal();
+                    }
+                }
+            }
+            if outputs.is_empty() {
+                self.bump(Class::Unknown, 1);
+            }
+            return;
+        }
+
+        let i = sym.inst as usize;
+        let inst = &self.inst[i];
+        let ids = inst.ids[sym.k as usize];
+        // delivery-side bookkeeping for R-inorder (independent of what the implementation does)
+        let pre_class = classify(self.cfg.futures, inst.snap_id, None, ids);
+        let clean_after = match st.mon[i].clean {
+            Clean::Pre => match pre_class {
+                Class::Older => Clean::Pre,
+                Class::Covering => Clean::Chain(sym.k + 1),
+                _ => Clean::Dirty,
+            },
+            Clean::Chain(n) if n == sym.k => Clean::Chain(n + 1),
+            _ => Clean::Dirty,
+        };
+        st.mon[i].clean = clean_after;
+        let in_order = clean_after != Clean::Dirty;
+        // implementation-side classification: relative to the chain the implementation has admitted so far
+        let class = classify(self.cfg.futures, inst.snap_id, st.mon[i].pos, ids);
+        let breaks_chain = matches!(class, Class::Gap | Class::Overlap);
+
+        if outputs.is_empty() {
+            self.bump(class, 1);
+            if breaks_chain {
+                out.push((format!("C06/{r}/break-not-surfaced/{}-silently-dropped", CLASS_NAMES[class as usize]), describe("no output at all")));
+            }
+        }
+        for o in outputs {
+            match o {
+                Ok(ev) => {
+                    self.bump(class, 0);
+                    let target = ev.instrument as usize;
+                    if target != i {
+                        out.push((format!("C06/{r}/routing/event-names-other-instrument"), describe(&format!("event names instrument {target}, the message is for {i}"))));
+                        if let Some(b) = st.books.get_mut(target) {
+                            b.update(ev.kind.clone());
+                            st.mon[target].desynced = true;
+                        }
+                        continue;
+                    }
+                    // R-chain
+                    let ok = matches!((st.mon[i].pos, class), (None, Class::Covering) | (Some(_), Class::Next));
+                    if !ok {
+                        let which = if st.mon[i].pos.is_none() { "first-admitted-does-not-cover-snapshot" } else { "admitted-does-not-follow-previous" };
+                        out.push((format!("C06/{r}/chain/{which}/{}", CLASS_NAMES[class as usize]), describe(&format!("update admitted while chain position is {:?} (snapshot id {})", st.mon[i].pos, inst.snap_id))));
+                        st.mon[i].desynced = true;
+                    }
+                    st.mon[i].pos = Some(ids.last);
+                    st.books[i].update(ev.kind);
+                    // R-book
+                    if !st.mon[i].desynced {
+                        let mut v = Vec::new();
+                        self.judge_book(i, st, "after an admitted update", &mut v);
+                        if !v.is_empty() {
+                            st.mon[i].desynced = true;
+                        }
+                        out.extend(v.into_iter().map(|(s, d)| (s, describe(&d))));
+                    }
+                }
+                Err(e) => {
+                    let terminal = e.is_terminal();
+                    self.bump(class, if terminal { 2 } else { 3 });
+                    if in_order {
+                        // R-inorder
+                        let phase = match class {
+                            Class::Older => "older-than-snapshot-before-chain-start".to_string(),
+                            c => CLASS_NAMES[c as usize].to_string(),
+                        };
+                        out.push((format!("C06/{r}/in-order-delivery-errors/{phase}"), describe(&format!("Err({e})"))));
+                    } else if breaks_chain && !terminal {
+                        // R-break
+                        out.push((format!("C06/{r}/break-not-surfaced/error-is-not-terminal"), describe(&format!("Err({e}) with is_terminal()=false"))));
+                    }
+                    st.ended |= terminal;
+                }
+            }
+        }
+    }
+
+    fn final_hash(&self, s: &St) -> u64 {
+        let b = |k: &OrderBook| (k.sequence, k.bids().levels().to_vec(), k.asks().levels().to_vec());
+        hash_of(&(b(&s.books[0]), b(&s.books[1]), s.mon[0].pos, s.mon[1].pos, s.ended))
+    }
+}
+
+impl Scn {
+    fn explain(&self, sym: &Sym) -> String {
+        let mut s = format!("{} rules, id stride {}", self.rules(), self.cfg.stride);
+        for i in 0..2 {
+            s += &format!("; instrument {i}: snapshot id {}, updates {:?}", self.inst[i].snap_id,
+                self.inst[i].ids.iter().map(|d| if self.cfg.futures { format!("[U={} u={} pu={}]", d.first, d.last, d.prev) } else { format!("[U={} u={}]", d.first, d.last) }).collect::<Vec<_>>());
+        }
+        if sym.inst >= 2 {
+            s += "; message is for an un-subscribed market";
+        }
+        s
+    }
+}
+
+// ------------------------------------------------------------------------------------------------
+
+/// Configuration sweep: instrument 0 runs through every composition x snapshot point of its script;
+/// instrument 1 takes a small menu (so that its messages interleave with every chain state of instrument 0).
+fn configs(k0: u8, scripts0: &[u8], menu1: &[InstCfg]) -> Vec<Cfg> {
+    let mut v = Vec::new();
+    for (futures, stride) in [(false, 1u8), (true, 1), (true, 2)] {
+        for &script in scripts0 {
+            for cuts in 0..(1u8 << (k0 - 1)) {
+                for snap in 0..=k0 {
+                    for m1 in menu1 {
+                        v.push(Cfg { futures, stride, inst: [InstCfg { script, k: k0, cuts, snap }, *m1] });
+                    }
+                }
+            }
+        }
+    }
+    v
+}
+
+pub fn run(ctx: &Ctx) -> Outcome {
+    // (k of instrument 0, scripts of instrument 0, menu of instrument 1, max delivery length)
+    let b = |k: u8, cuts: u8, snap: u8| InstCfg { script: 1, k, cuts, snap };
+    let menu3 = vec![b(3, 0b11, 0), b(3, 0b01, 1), b(3, 0b10, 2), b(3, 0b00, 3)];
+    let sweeps: Vec<(u8, Vec<u8>, Vec<InstCfg>, usize)> = ctx.tier.pick(
+        vec![(5, vec![0], menu3.clone(), 6)],
+        vec![(5, vec![0, 2], menu3.clone(), 7), (6, vec![0, 2], menu3.clone(), 6)],
+    );
+    let (mut sequences, mut steps, mut n_cfg) = (0u64, 0u64, 0usize);
+    let mut distinct_final = 0usize;
+    let mut table: BTreeMap<String, u64> = BTreeMap::new();
+    let mut samples = Vec::new();
+    let mut bounds = Vec::new();
+    for (k0, scripts0, menu1, max_len) in &sweeps {
+        let cfgs = configs(*k0, scripts0, menu1);
+        bounds.push(json!({"changes_instrument0": k0, "scripts_instrument0": scripts0, "menu_instrument1": menu1, "max_delivery_len": max_len, "configurations": cfgs.len()}));
+        n_cfg += cfgs.len();
+        // configurations in parallel (the seq engine also parallelises inside one configuration)
+        let results: Vec<(Cfg, seq::SeqStats, Vec<(String, u64)>)> = cfgs
+            .par_iter()
+            .map(|cfg| {
+                let scn = Scn::new(*cfg);
+                let label = serde_json::to_string(cfg).unwrap();
+                let st = seq::run(ctx, &scn, &label, *max_len);
+                let mut t = Vec::new();
+                for c in 0..7 {
+                    for o in 0..4 {
+                        let n = scn.counts[c * 4 + o].load(Ordering::Relaxed);
+                        if n > 0 {
+                            t.push((format!("{}/{}/{}", scn.rules(), CLASS_NAMES[c], OUTCOME_NAMES[o]), n));
+                        }
+                    }
+                }
+                (*cfg, st, t)
+            })
+            .collect();
+        for (cfg, st, t) in results {
+            sequences += st.sequences;
+            steps += st.steps;
+            distinct_final += st.distinct_final; // distinct final (local books, chain positions, ended) per configuration
+            for (k, n) in t {
+                *table.entry(k).or_insert(0) += n;
+            }
+            if samples.len() < 4 && st.sequences > 1000 {
+                samples.push(json!({"config": cfg, "sequences": st.sequences, "distinct_final_states": st.distinct_final}));
+            }
+        }
+    }
+    Outcome {
+        level: "exploration",
+        coverage: json!({
+            "evaluations": sequences,
+            "steps": steps,
+            "configurations": n_cfg,
+            "distinct_nontrivial": distinct_final,
+            "distinct_class_outcome_pairs": table.len(),
+            "class_outcome_counts": table,
+            "exhaustive": true,
+            "bounds": bounds,
+            "rule": "every delivery sequence (length <= L) over the depth updates of two instruments + one un-subscribed market message, through the real Binance spot / futures L2 transformer (ExchangeTransformer::init) into real OrderBooks; venue-rule monitor: admitted updates form the published chain, book == venue book at its sequence, gaps give a terminal error, in-order delivery after older messages never errors",
+            "samples": samples,
+        }),
+        assumptions: vec![
+            "venue evolutions are the fixed scripts of this file (3 scripts, every composition into updates, every snapshot point); ids are consecutive per instrument".into(),
+            "an update carries the absolute amounts (as of its last id) of exactly the levels touched in its id range, as the venue documents".into(),
+            "REST snapshots are well-formed and are delivered to the consumer before the first depth update (the ordering of buffered events inside ExchangeWsStream::init is not exercised: it needs a live socket)".into(),
+            "a stale or duplicated message after the chain has started may be dropped or answered with an error (the statement leaves it open)".into(),
+        ],
+    }
+}
+
+pub fn replay(ctx: &Ctx, case: &Value) {
+    let cfg: Cfg = serde_json::from_str(case["label"].as_str().expect("replay: label")).expect("replay: label is not a configuration");
+    let scn = Scn::new(cfg);
+    println!("configuration: {}", scn.explain(&Sym { inst: 0, k: 0 }));
+    for (sig, detail) in seq::replay(&scn, case) {
+        ctx.violate(sig, detail, case.clone());
+    }
 }
